@@ -1,7 +1,7 @@
 (* C02 -- Declarators decode to the C++ type they denote. *)
 From Coq Require Import NArith List Bool.
 Import ListNotations.
-From CXV Require Import Gen.TokTy Parse.Balanced Parse.BalancedThms Parse.Declarator Parse.DeclSpec Parse.DeclThms Parse.DeclPins.
+From CXV Require Import Gen.TokTy Parse.Balanced Parse.BalancedThms Parse.Declarator Parse.DeclSpec Parse.DeclThms Parse.DeclPins Parse.PQName Gen.ParserTables.
 Open Scope N_scope.
 
 (* For every legal type tree t (wf: the C++ rules on pointers, references,
@@ -51,11 +51,21 @@ Theorem alias_decodes : forall t rest,
   ev (fun f => alias_type f (decl_toks t None ++ rest)) (DOk (t, rest)).
 Proof. exact alias_roundtrip. Qed.
 
+(* base type names without template arguments: an optional `typename` or class
+   key (struct / class / union / enum [class|struct]), an optional leading '::'
+   and any number of '::'-separated identifiers; or a fundamental type, where
+   the compound keywords (unsigned long int ...) are kept as one group in the
+   order written.  The keyword sets are the regenerated ones. *)
+Theorem qualified_name_decodes : forall p rest,
+  pn2_ok p rest -> parse_pqname (pn2_toks p ++ rest) = DOk (pn2_out p, rest).
+Proof. exact pqname_roundtrip. Qed.
+
 (* the code the model mirrors is the pinned one, and the token sets it tests
    the stream for are the sets the model hard-codes (regenerated on every run) *)
 Theorem declarator_code_is_the_modelled_one : decl_sets_ok = true.
 Proof. exact decl_sets_ok_true. Qed.
 
+Print Assumptions qualified_name_decodes.
 Print Assumptions alias_decodes.
 Print Assumptions declarator_code_is_the_modelled_one.
 Print Assumptions declarator_decodes.
@@ -70,3 +80,10 @@ Proof. split; [exact (proj1 ex_wf)|split; [exact (proj2 ex_wf)|reflexivity]]. Qe
 Example c02_nonvacuous_run :
   parse_var 40 (decl_toks ex_ty (Some 1) ++ [ktok SEMI]) = DOk (1, ex_ty, [ktok SEMI]).
 Proof. exact ex_runs. Qed.
+
+Example c02_pqname_run :
+  parse_pqname (pn2_toks (PNames false [T_enum; T_class] true 7 [8; 9]) ++ [ktok STAR])
+  = DOk (mkPQ [T_enum; T_class] false [SRoot; SName 7; SName 8; SName 9], [ktok STAR])
+  /\ parse_pqname (pn2_toks (PFund false [T_unsigned; T_long; T_int]) ++ [mkTk T_NAME 3])
+  = DOk (mkPQ [] false [SFund [T_unsigned; T_long; T_int]], [mkTk T_NAME 3]).
+Proof. vm_compute. split; reflexivity. Qed.
